@@ -3,7 +3,7 @@
 update the check results in /verif/seeded/<id>/meta.json.  Also confirms the unpatched tree is clean for all checks."""
 import json, os, re, subprocess, sys
 VERIF = os.path.dirname(os.path.dirname(os.path.abspath(__file__)))
-ALL = ['C%02d' % i for i in range(1, 21) if i != 9]
+ALL = ['C%02d' % i for i in range(1, 21)]
 def sh(cmd, **kw): return subprocess.run(cmd, shell=True, capture_output=True, text=True, **kw)
 def main():
     only = sys.argv[1:]
@@ -21,8 +21,10 @@ def main():
             json.dump(meta, open(mp, 'w'), indent=1); continue
         checks = {}
         try:
-            for p in ALL:
-                r = sh('./check %s --no-evidence' % p, cwd=VERIF)
+            from concurrent.futures import ThreadPoolExecutor
+            with ThreadPoolExecutor(16) as ex:
+                results = list(ex.map(lambda p: (p, sh('./check %s --no-evidence' % p, cwd=VERIF)), ALL))
+            for p, r in results:
                 if r.returncode != 0:
                     keys = re.findall(r'^pyphysim/\S+ \[([^\]]+)\]', r.stdout, flags=re.M)
                     err = [l[:200] for l in r.stdout.splitlines() if l.startswith('ANALYSIS-')]
